@@ -1287,6 +1287,8 @@ def run_entity_case(world, rc, mr, api, fails, stats):
         cause = cause_of(rc, cl, aspect, exc)
         if rc["t"] == "INSERT" and aspect == "geometry" and what.startswith(("colstep", "rowstep")):
             cause = "minsert-spacing"
+        if cause == "hatch-ellipse-edge" and not what.startswith("curve"):
+            cause = "general"  # the listed finding concerns elliptic edges only: wrong points / segments are something else
         fails.append((f"{cause}/{api}/{rc['t']}/{aspect}/{mclass}/{_hash(rep)}", f"{rc['t']} {api}({json.dumps(mr)}): {what}", rep))
 
     want_full = [map_prim(p, m, cl["k"]) for p in select(before, cl)]
@@ -1533,7 +1535,10 @@ def run_nested_case(recipe, fails, stats, how="virtual"):
     for i, (w, g) in enumerate(zip(want, act)):
         d = cmp_pieces([w], [g])
         if d:
-            return fail(prio(exp[i][1]), "geometry", f"piece {i} ({exp[i][2]}): {d}")
+            fl = set(exp[i][1])
+            if w[0] != "A":  # the curve findings do not explain a wrong point or straight segment
+                fl -= {"hatch-ellipse-edge", "plane-shear"}
+            return fail(prio(fl), "geometry", f"piece {i} ({exp[i][2]}): {d}")
 
 
 def _explode_all(ins, out):
